@@ -188,6 +188,18 @@ Proof.
   destruct (l_worker s) eqn:Ew; try discriminate. inversion E; subst; clear E. constructor; linv_close H1 H2 H3 H4 H5 H6 H7 H8.
 Qed.
 
+Lemma apply_effect_inv e s s' : LInv s -> l_worker s = WSelect -> apply_effect e s = Some s' -> LInv s'.
+Proof.
+  intros I0 Hw E. destruct e as [|v|b|k']; cbn [apply_effect] in E.
+  - inversion E; subst; exact I0.
+  - destruct (N.ltb v (l_wv s)); [discriminate|]. inversion E; subst s'; clear E.
+    destruct I0 as [H1 H2 H3 H4 H5 H6 H7 H8]. constructor; linv_close H1 H2 H3 H4 H5 H6 H7 H8.
+  - assert (I1 : LInv (new_round (l_wh s + 1) s)) by (apply new_round_inv; assumption).
+    destruct b as [k|]; [|inversion E; subst; exact I1].
+    destruct (N.eqb (fst k) (l_wh (new_round (l_wh s + 1) s))) eqn:Ek; [|discriminate]. apply N.eqb_eq in Ek. eapply enter_spi_inv; eauto.
+  - destruct (N.eqb (fst k') (l_wh s)) eqn:Eh; [|discriminate]. apply N.eqb_eq in Eh. eapply enter_spi_inv; eauto.
+Qed.
+
 Lemma step_worker_msg e s s' : LInv s -> lstep s (LWorkerMsg e) = Some s' -> LInv s'.
 Proof.
   intros I E. cbn [lstep] in E. destruct (l_worker s) eqn:Ew; try discriminate. destruct (l_msgs s) as [|k] eqn:Ek; try discriminate.
@@ -195,12 +207,7 @@ Proof.
                 l_reg := l_reg s; l_maxsync := l_maxsync s; l_upd := l_upd s; l_elect := l_elect s; l_msgs := k; l_rounds := l_rounds s |}) in *.
   assert (I0 : LInv s0).
   { destruct I as [H1 H2 H3 H4 H5 H6 H7 H8]. subst s0. constructor; linv_close H1 H2 H3 H4 H5 H6 H7 H8. }
-  destruct e as [|v| |k'].
-  - inversion E; subst; exact I0.
-  - destruct (N.ltb v (l_wv s0)); [discriminate|]. inversion E; subst s'; clear E.
-    destruct I0 as [H1 H2 H3 H4 H5 H6 H7 H8]. constructor; linv_close H1 H2 H3 H4 H5 H6 H7 H8.
-  - inversion E; subst. apply new_round_inv; [exact I0|reflexivity].
-  - destruct (N.eqb (fst k') (l_wh s0)) eqn:Eh; [|discriminate]. apply N.eqb_eq in Eh. eapply enter_spi_inv; eauto.
+  eapply apply_effect_inv; [exact I0|reflexivity|exact E].
 Qed.
 
 Lemma step_worker_elect b s s' : LInv s -> lstep s (LWorkerElect b) = Some s' -> LInv s'.
@@ -236,16 +243,19 @@ Proof.
   - destruct b; [discriminate|]. inversion E; subst; exact I0.
 Qed.
 
-Lemma step_spi_return s s' : LInv s -> lstep s LSpiReturn = Some s' -> LInv s'.
+Lemma unbusy_inv s : LInv s -> LInv (set_worker WSelect s).
+Proof. intros [H1 H2 H3 H4 H5 H6 H7 H8]. constructor; linv_close H1 H2 H3 H4 H5 H6 H7 H8. Qed.
+
+Lemma step_spi_return e s s' : LInv s -> lstep s (LSpiReturn e) = Some s' -> LInv s'.
 Proof.
-  intros [H1 H2 H3 H4 H5 H6 H7 H8] E. cbn [lstep] in E. destruct (l_worker s) eqn:Ew; try discriminate. inversion E; subst; clear E.
-  constructor; linv_close H1 H2 H3 H4 H5 H6 H7 H8.
+  intros I E. cbn [lstep] in E. destruct (l_worker s) eqn:Ew; try discriminate.
+  eapply apply_effect_inv; [apply unbusy_inv; exact I|reflexivity|exact E].
 Qed.
 
-Lemma step_spi_released s s' : LInv s -> lstep s LSpiReleased = Some s' -> LInv s'.
+Lemma step_spi_released e s s' : LInv s -> lstep s (LSpiReleased e) = Some s' -> LInv s'.
 Proof.
-  intros [H1 H2 H3 H4 H5 H6 H7 H8] E. cbn [lstep] in E. destruct (l_worker s) eqn:Ew; try discriminate. destruct (ctx_done (l_reg s) k); [|discriminate].
-  inversion E; subst; clear E. constructor; linv_close H1 H2 H3 H4 H5 H6 H7 H8.
+  intros I E. cbn [lstep] in E. destruct (l_worker s) eqn:Ew; try discriminate. destruct (ctx_done (l_reg s) k); [|discriminate].
+  eapply apply_effect_inv; [apply unbusy_inv; exact I|reflexivity|exact E].
 Qed.
 
 Lemma lstep_inv s l s' : LInv s -> lstep s l = Some s' -> LInv s'.
@@ -343,6 +353,22 @@ Proof.
   - exfalso. replace (hv_lt k k) with false in Hf by (symmetry; apply hv_lt_false; lia). cbn in Hf; try discriminate; destruct (memHV _ _); discriminate.
 Qed.
 
+Lemma apply_effect_inv2 e s s' : LInv2 s -> apply_effect e s = Some s' -> LInv2 s'.
+Proof.
+  intros I0 H. destruct e as [|v|b|k']; cbn [apply_effect] in H.
+  - inversion H; subst; exact I0.
+  - destruct (N.ltb_spec v (l_wv s)) as [Hlt|Hge]; [discriminate|]. inversion H; subst s'; clear H.
+    destruct I0 as [A B C D E F G]. constructor; sb; auto.
+    + intros h' v' Hx. inversion Hx; subst. auto.
+    + intros h' v' Hx. specialize (B _ _ Hx). hvle_tac.
+    + intros h' v' Hx. specialize (C _ _ Hx). hvle_tac.
+    + intros w Hw. destruct (E w Hw) as [X|[X|X]]; auto. left. hvle_tac.
+  - pose proof (new_round_inv2 (l_wh s + 1) s I0) as I1.
+    destruct b as [k|]; [|inversion H; subst; exact I1].
+    destruct (N.eqb (fst k) (l_wh (new_round (l_wh s + 1) s))); [|discriminate]. eapply enter_spi_inv2; eauto.
+  - destruct (N.eqb (fst k') (l_wh s)); [|discriminate]. eapply enter_spi_inv2; eauto.
+Qed.
+
 Lemma lstep_inv2 s l s' : LInv s -> LInv2 s -> lstep s l = Some s' -> LInv2 s'.
 Proof.
   intros I I2 H. destruct l; cbn [lstep] in H.
@@ -397,19 +423,7 @@ Proof.
   - (* LWorkerExit *) destruct I2 as [A B C D E F G]. destruct (l_cancelled s) eqn:Ec; [|discriminate].
     destruct (l_worker s) eqn:Ew; try discriminate; inversion H; subst; clear H; constructor; sb; auto; try (intros; discriminate).
   - (* LWorkerMsg *) destruct (l_worker s) eqn:Ew; try discriminate. destruct (l_msgs s) as [|k] eqn:Ek; try discriminate.
-    set (s0 := {| l_cancelled := l_cancelled s; l_main := l_main s; l_worker := WSelect; l_wh := l_wh s; l_wv := l_wv s; l_armed := l_armed s;
-                  l_reg := l_reg s; l_maxsync := l_maxsync s; l_upd := l_upd s; l_elect := l_elect s; l_msgs := k; l_rounds := l_rounds s |}) in *.
-    assert (I0 : LInv2 s0) by (destruct I2 as [A B C D E F G]; constructor; auto).
-    destruct e as [|v| |k'].
-    + inversion H; subst; exact I0.
-    + destruct (N.ltb_spec v (l_wv s0)) as [Hlt|Hge]; [discriminate|]. inversion H; subst s'; clear H.
-      destruct I0 as [A B C D E F G]. subst s0. constructor; sb; auto.
-      * intros h' v' Hx. inversion Hx; subst. auto.
-      * intros h' v' Hx. specialize (B _ _ Hx). hvle_tac.
-      * intros h' v' Hx. specialize (C _ _ Hx). hvle_tac.
-      * intros w Hw. destruct (E w Hw) as [X|[X|X]]; auto. left. hvle_tac.
-    + inversion H; subst. apply new_round_inv2. exact I0.
-    + destruct (N.eqb (fst k') (l_wh s0)); [|discriminate]. eapply enter_spi_inv2; eauto.
+    eapply apply_effect_inv2; [|exact H]. destruct I2 as [A B C D E F G]; constructor; auto.
   - (* LWorkerElect *) destruct (l_worker s) eqn:Ew; try discriminate. destruct (l_elect s) as [[h v]|] eqn:Ee; try discriminate. fields.
     destruct (N.eqb h (l_wh s) && N.eqb v (l_wv s)) eqn:Ehv.
     + apply andb_true_iff in Ehv. destruct Ehv as [Eh Ev]. apply N.eqb_eq in Eh, Ev. subst h v.
@@ -432,9 +446,10 @@ Proof.
       destruct block as [k|]; [|inversion H; subst; exact I1].
       destruct (N.eqb (fst k) (l_wh (new_round (hb + 1) s0))); [|discriminate]. eapply enter_spi_inv2; eauto.
     * destruct block; [discriminate|]. inversion H; subst; exact I0.
-  - (* LSpiReturn *) destruct I2 as [A B C D E F G]. destruct (l_worker s) eqn:Ew; try discriminate. inversion H; subst; clear H. constructor; sb; auto.
-  - (* LSpiReleased *) destruct I2 as [A B C D E F G]. destruct (l_worker s) eqn:Ew; try discriminate. destruct (ctx_done (l_reg s) k); [|discriminate].
-    inversion H; subst; clear H. constructor; sb; auto.
+  - (* LSpiReturn *) destruct (l_worker s) eqn:Ew; try discriminate.
+    eapply apply_effect_inv2; [|exact H]. destruct I2 as [A B C D E F G]; constructor; sb; auto.
+  - (* LSpiReleased *) destruct (l_worker s) eqn:Ew; try discriminate. destruct (ctx_done (l_reg s) k); [|discriminate].
+    eapply apply_effect_inv2; [|exact H]. destruct I2 as [A B C D E F G]; constructor; sb; auto.
 Qed.
 
 Lemma lrun_inv2 ls : forall s s', LInv s -> LInv2 s -> lrun s ls = Some s' -> LInv2 s'.
@@ -469,7 +484,7 @@ Proof. intros R H. pose proof (reach_inv s R) as I. pose proof (li_shut _ I H) a
 (* --- C16: from every reachable state in which the Run context is cancelled, the loops' own exit steps are enabled and
    at most four of them end both loops, whatever the worker is doing (idle, or inside an SPI call that waits on its context) --- *)
 Definition own_exit_label (l : label) : bool :=
-  match l with LMainFwdAbort | LMainExit | LSpiReleased | LWorkerExit => true | _ => false end.
+  match l with LMainFwdAbort | LMainExit | LSpiReleased ENothing | LWorkerExit => true | _ => false end.
 
 Theorem shutdown_completes s : reach s -> l_cancelled s = true ->
   exists ls s', lrun s ls = Some s' /\ (length ls <= 4)%nat /\ forallb own_exit_label ls = true /\ l_main s' = MExited /\ l_worker s' = WExited.
@@ -493,7 +508,7 @@ Proof.
     - assert (D : ctx_done (l_reg s1) k = true).
       { unfold ctx_done. destruct (li_exit _ I1 M1) as [_ Hs]. rewrite Hs. destruct (li_busy _ I1 _ Ew) as [_ Hi].
         apply memHV_In in Hi. rewrite Hi. cbn. apply orb_true_r. }
-      exists [LSpiReleased; LWorkerExit]. eexists. cbn [lrun lstep]. rewrite Ew, D. fields. rewrite C1. split; [reflexivity|]. cbn. repeat split; auto.
+      exists [LSpiReleased ENothing; LWorkerExit]. eexists. cbn [lrun lstep apply_effect]. rewrite Ew, D. fields. rewrite C1. split; [reflexivity|]. cbn. repeat split; auto.
     - exists []. exists s1. cbn. repeat split; auto. }
   destruct P2 as (ls2 & s2 & R2 & L2 & F2 & M2 & W2).
   exists (ls1 ++ ls2), s2. split; [|split; [rewrite app_length; lia|split; [rewrite forallb_app, F1, F2; reflexivity|auto]]].
@@ -504,7 +519,7 @@ Qed.
 (* --- C16: once both loops have exited nothing happens any more: no worker step is enabled (so no callback, no send,
    no timer arming), the timer is stopped, and the state is frozen --- *)
 Definition worker_label (l : label) : bool :=
-  match l with LWorkerMsg _ | LWorkerElect _ | LWorkerSync _ | LSpiReturn | LSpiReleased | LWorkerExit => true | _ => false end.
+  match l with LWorkerMsg _ | LWorkerElect _ | LWorkerSync _ | LSpiReturn _ | LSpiReleased _ | LWorkerExit => true | _ => false end.
 
 Theorem nothing_after_shutdown s : reach s -> l_worker s = WExited ->
   l_armed s = None /\ l_cancelled s = true /\
@@ -598,6 +613,12 @@ Proof.
   { intros k x y. unfold enter_spi. destruct (fst _); [|discriminate]. intro E; inversion E; reflexivity. }
   assert (KN : forall h x, l_maxsync (new_round h x) = l_maxsync x).
   { intros h x. unfold new_round. destruct (negb _); [reflexivity|]. destruct (N.leb _ _); reflexivity. }
+  assert (KA : forall e x y, apply_effect e x = Some y -> l_maxsync y = l_maxsync x).
+  { intros e x y. destruct e as [|v|b|k]; cbn [apply_effect].
+    - intro E; inversion E; reflexivity.
+    - destruct (N.ltb _ _); [discriminate|]. intro E; inversion E; reflexivity.
+    - destruct b as [k|]; [|intro E; inversion E; apply KN]. destruct (N.eqb _ _); [|discriminate]. intro E. rewrite (KE _ _ _ E). apply KN.
+    - destruct (N.eqb _ _); [|discriminate]. apply KE. }
   destruct l; cbn [lstep] in H.
   - inversion H; subst. exists mx. cbn. split; [exact Hm|lia].
   - destruct (l_main s); try discriminate. destruct (match l_maxsync (gc s) with Some mx0 => hb <=? mx0 | None => false end); [inversion H; subst; exists mx; split; [exact Hm|lia]|].
@@ -613,11 +634,7 @@ Proof.
   - destruct (l_cancelled s); [|discriminate]. destruct (l_main s); try discriminate; inversion H; subst; exists mx; (split; [exact Hm|lia]).
   - destruct (l_cancelled s); [|discriminate]. destruct (l_main s); try discriminate; inversion H; subst; exists mx; (split; [exact Hm|lia]).
   - destruct (l_cancelled s); [|discriminate]. destruct (l_worker s); try discriminate; inversion H; subst; exists mx; (split; [exact Hm|lia]).
-  - destruct (l_worker s); try discriminate. destruct (l_msgs s); try discriminate. destruct e.
-    + inversion H; subst. exists mx. split; [exact Hm|lia].
-    + destruct (N.ltb _ _); [discriminate|]. inversion H; subst. exists mx. split; [exact Hm|lia].
-    + inversion H; subst. rewrite KN. exists mx. split; [exact Hm|lia].
-    + destruct (N.eqb _ _); [|discriminate]. rewrite (KE _ _ _ H). exists mx. split; [exact Hm|lia].
+  - destruct (l_worker s); try discriminate. destruct (l_msgs s); try discriminate. rewrite (KA _ _ _ H). exists mx. split; [exact Hm|lia].
   - destruct (l_worker s); try discriminate. destruct (l_elect s) as [[h v]|]; try discriminate. fields.
     destruct (N.eqb h (l_wh s) && N.eqb v (l_wv s)).
     + destruct block as [k|]; [|inversion H; subst; exists mx; split; [exact Hm|lia]].
@@ -627,8 +644,8 @@ Proof.
     + destruct block as [k|]; [|inversion H; subst; rewrite KN; exists mx; split; [exact Hm|lia]].
       destruct (N.eqb _ _); [|discriminate]. rewrite (KE _ _ _ H), KN. exists mx. split; [exact Hm|lia].
     + destruct block; [discriminate|]. inversion H; subst. exists mx. split; [exact Hm|lia].
-  - destruct (l_worker s); try discriminate. inversion H; subst. exists mx. split; [exact Hm|lia].
-  - destruct (l_worker s); try discriminate. destruct (ctx_done _ _); [|discriminate]. inversion H; subst. exists mx. split; [exact Hm|lia].
+  - destruct (l_worker s); try discriminate. rewrite (KA _ _ _ H). exists mx. split; [exact Hm|lia].
+  - destruct (l_worker s); try discriminate. destruct (ctx_done _ _); [|discriminate]. rewrite (KA _ _ _ H). exists mx. split; [exact Hm|lia].
 Qed.
 
 (* --- C14: an idle worker can always take the pending sync, and afterwards it works on a height above the block -
@@ -673,7 +690,7 @@ Qed.
    loop has processed a sync to a higher height, an election trigger for its (height, view) or a later one, or has exited.
    This holds before the worker has even seen the event (the main loop cancels, then forwards). --- *)
 Theorem spi_released_by_sync s k hb : reach s -> l_worker s = WBusy k -> (l_upd s = Some hb \/ l_main s = MFwdSync hb) ->
-  hv_lt k (hb + 1, 0) = true -> ctx_done (l_reg s) k = true /\ exists s', lstep s LSpiReleased = Some s' /\ l_worker s' = WSelect.
+  hv_lt k (hb + 1, 0) = true -> ctx_done (l_reg s) k = true /\ exists s', lstep s (LSpiReleased ENothing) = Some s' /\ l_worker s' = WSelect.
 Proof.
   intros R Hb Hs Hlt. pose proof (reach_inv s R) as I. destruct (li_wm_sync _ I hb Hs) as (w & W1 & W2). destruct (li_busy _ I k Hb) as [_ Hi].
   assert (D : ctx_done (l_reg s) k = true).
@@ -682,7 +699,7 @@ Proof.
 Qed.
 
 Theorem spi_released_by_election s k h v : reach s -> l_worker s = WBusy k -> (l_elect s = Some (h, v) \/ l_main s = MFwdTrig h v) ->
-  hv_lt k (h, v + 1) = true -> ctx_done (l_reg s) k = true /\ exists s', lstep s LSpiReleased = Some s' /\ l_worker s' = WSelect.
+  hv_lt k (h, v + 1) = true -> ctx_done (l_reg s) k = true /\ exists s', lstep s (LSpiReleased ENothing) = Some s' /\ l_worker s' = WSelect.
 Proof.
   intros R Hb Hs Hlt. pose proof (reach_inv s R) as I. destruct (li_wm_trig _ I h v Hs) as (w & W1 & W2). destruct (li_busy _ I k Hb) as [_ Hi].
   assert (D : ctx_done (l_reg s) k = true).
@@ -691,7 +708,7 @@ Proof.
 Qed.
 
 Theorem spi_released_by_shutdown s k : reach s -> l_worker s = WBusy k -> l_main s = MExited ->
-  ctx_done (l_reg s) k = true /\ exists s', lstep s LSpiReleased = Some s' /\ l_worker s' = WSelect.
+  ctx_done (l_reg s) k = true /\ exists s', lstep s (LSpiReleased ENothing) = Some s' /\ l_worker s' = WSelect.
 Proof.
   intros R Hb Hm. pose proof (reach_inv s R) as I. destruct (li_exit _ I Hm) as [_ Hs]. destruct (li_busy _ I k Hb) as [_ Hi].
   assert (D : ctx_done (l_reg s) k = true) by (unfold ctx_done; rewrite Hs; apply memHV_In in Hi; rewrite Hi; apply orb_true_r).
@@ -712,6 +729,6 @@ Proof. intros R H. exact (l2_armed _ (reach_inv2 s R) h v H). Qed.
 
 (* non-vacuity: a run in which a sync overtakes a blocked SPI call and the node then shuts down from inside another *)
 Example loops_witness :
-  exists s, lrun l_init [LApiSync 0; LMainFwd; LWorkerSync (Some (1, 0)); LApiSync 5; LSpiReleased; LMainFwd; LWorkerSync (Some (6, 0)); LCancel; LMainExit; LSpiReleased; LWorkerExit] = Some s
+  exists s, lrun l_init [LApiSync 0; LMainFwd; LWorkerSync (Some (1, 0)); LApiSync 5; LSpiReleased ENothing; LMainFwd; LWorkerSync (Some (6, 0)); LCancel; LMainExit; LSpiReleased ENothing; LWorkerExit] = Some s
     /\ l_wh s = 6 /\ l_rounds s = [6; 1] /\ l_main s = MExited /\ l_worker s = WExited /\ l_armed s = None.
 Proof. eexists. vm_compute. repeat split. Qed.
